@@ -207,7 +207,7 @@ fn enum_long(_t: Tier, shard: usize, n: usize, f: &mut dyn FnMut(Soup) -> bool) 
 fn enum_chains(_t: Tier, shard: usize, n: usize, f: &mut dyn FnMut((u8, u16)) -> bool) {
     let mut i = 0;
     for labels in [0u8, 1, 2, 63, 126, 127] {
-        for hops in (0u16..=40).chain([62, 63, 64, 65, 100, 126, 127, 128, 129, 200, 252, 253, 254, 255, 256, 257, 300, 511, 512, 1000, 4000]) {
+        for hops in crate::gen::sizes_u16(&(0u16..=40).chain([62, 63, 64, 65, 100, 126, 127, 128, 129, 200, 252, 253, 254, 255, 256, 257, 300, 511, 512, 1000, 4000]).collect::<Vec<_>>(), 4100) {
             i += 1;
             if mine(i, shard, n) && !f((labels, hops)) {
                 return;
